@@ -295,7 +295,8 @@ Next ==
   \/ \E p \in Perms(s.nrows) : Reorder(p)
   \/ \E t \in TitleSet : SortBy(t) \/ TakeAttr(t) \/ TakeItem(t)
   \/ Copy \/ GetBig
-  \/ \E ix \in {<<1>>, <<2, 1>>, <<1, 1>>} : (\A k \in 1..Len(ix) : ix[k] <= s.nrows) /\ CopyRowsIdx(ix)
+  \/ \E ix \in {<<1>>, <<2, 1>>, <<1, 1>>, <<1, 2>>, <<2, 3>>, <<1, 2, 3>>} :
+        (\A k \in 1..Len(ix) : ix[k] <= s.nrows) /\ CopyRowsIdx(ix)   \* single, descending, repeated, ascending runs
   \/ \E lo \in 0..1, hi \in 1..3 : CopyRowsSlice(lo, hi)
   \/ \E kind \in {0, 1}, n \in {2, 3}, v \in {0, 1} : SetBig(kind, n, v)
   \/ \E v \in Vals : MutateUser(v)
